@@ -1,5 +1,6 @@
 """C05 - public and masked schemes never let germline information through."""
 import io
+import json
 
 from .. import colcases, impl
 from ..common import exc_name, float_table, has_unmodelled, is_model_text
@@ -16,13 +17,19 @@ MODES = ["Strict", "Lenient", "Silent"]
 def masked_layouts():
     """Public/masked layouts, recognised from the definitions (a definition that redefines
     columns with RequireNullValue), not from a hard-coded list."""
+    if _LAYOUTS:
+        return _LAYOUTS[0]
     from ..gen import extract_schemes
     out = {}
     for d in extract_schemes():
         cols = [c for c, t in d["columns"] if t == "RequireNullValue"]
         if cols:
             out[d["annotation"]] = cols
+    _LAYOUTS.append(out)
     return out
+
+
+_LAYOUTS = []     # the definitions are read once per process
 
 
 def offending_texts(rng):
@@ -251,12 +258,394 @@ def writer_cases(ctx, out):
                     out.nontrivial.add((ann, col, text, r["how"], r["sorting"]))
 
 
+# ------------------------------------------------------------------ readers: every option that selects the scheme
+# The scheme a reader works under is the one given by the caller when there is one (it overrides the header's), else the one
+# the header names.  Whenever that scheme is a public / masked layout the guarantee holds, whatever the header says and by
+# whichever route the reader was opened.
+READER_CONFIGS = ["header-only", "explicit-equal", "explicit-sibling", "explicit-other-layout", "explicit-unknown-annotation",
+                  "explicit-other-version", "explicit-no-header"]
+
+
+def sibling_of(ann):
+    """The un-masked layout the masked one was derived from (same column names when there is one)."""
+    names = impl.scheme_by_annotation(ann).column_names()
+    masked = masked_layouts()
+    same = [a for a in impl.builtin_annotations() if a != ann and a not in masked and impl.scheme_by_annotation(a).column_names() == names]
+    pref = PROTECTED_OF.get(ann)
+    return pref if (pref in same or not same) else same[0]
+
+
+def reader_config(ann, config):
+    """(header lines, annotation of the scheme given to the reader or None)"""
+    v = "#version gdc-1.0.0"
+    if config == "header-only":
+        return [v, "#annotation.spec " + ann], None
+    if config == "explicit-equal":
+        return [v, "#annotation.spec " + ann], ann
+    if config == "explicit-sibling":
+        return [v, "#annotation.spec " + (sibling_of(ann) or ann)], ann
+    if config == "explicit-other-layout":
+        return [v], ann
+    if config == "explicit-unknown-annotation":
+        return [v, "#annotation.spec no-such-layout"], ann
+    if config == "explicit-other-version":
+        return ["#version gdc-9.9.9", "#annotation.spec " + ann], ann
+    if config == "explicit-no-header":
+        return [], ann
+    raise ValueError(config)
+
+
+def exposures(rec, ann):
+    """Ways in which a record lets a non-null germline value out: [(column, via, what)]."""
+    names = impl.scheme_by_annotation(ann).column_names()
+    out = []
+    slots = rec._MafRecord__columns_list
+    try:
+        printed = str(rec).split("\t")
+    except Exception:  # noqa
+        printed = []
+    for col in masked_layouts()[ann]:
+        k = names.index(col)
+        try:
+            v = rec.value(col)
+            if v is not None:
+                out.append((col, "value()", repr(v)))
+        except Exception:  # noqa
+            pass
+        if k < len(slots) and slots[k] is not None and slots[k].value is not None:
+            out.append((col, "record[%d]" % k, repr(slots[k].value)))
+        if k < len(printed) and printed[k] not in ("", "None"):          # an empty slot prints as "None"
+            out.append((col, "str(record)", printed[k]))
+    return out
+
+
+def eval_reader(ann, col, text, mode, config, route, line, tmp=None):
+    """A file (one record line with `text` in the masked column) read by a reader configured by `config`
+    and opened by `route`, on the implementation + the property's oracle -> {"failures", "account", "yielded"}"""
+    import shutil
+    import tempfile
+    header, given = reader_config(ann, config)
+    sch = impl.scheme_by_annotation(ann)
+    lines = header + ["\t".join(sch.column_names()), line]
+    own = None
+    if tmp is None and route in impl.PATH_READER_ROUTES:
+        own = tmp = tempfile.mkdtemp(prefix="verif_c05_")
+    recs, exc, where_exc = [], None, None
+    try:
+        with impl.LogCapture():
+            try:
+                reader = impl.open_reader(route, lines, impl.MODES[mode], scheme=impl.scheme_by_annotation(given) if given else None, tmp=tmp)
+            except Exception as x:  # noqa
+                reader, exc, where_exc = None, x, "opening"
+            if reader is not None:
+                try:
+                    for rec in reader:
+                        recs.append(rec)
+                except Exception as x:  # noqa
+                    exc, where_exc = x, "iterating"
+                try:
+                    reader.close()
+                except Exception:  # noqa
+                    pass
+    finally:
+        if own:
+            shutil.rmtree(own, ignore_errors=True)
+    where = {"scheme": ann, "column": col, "text": text, "mode": mode, "config": config, "route": route, "line": line}
+    fails = []
+    account = "%d record(s) yielded%s" % (len(recs), "" if exc is None else "; %s raised %s" % (where_exc, exc_name(exc)))
+    if mode == "Strict":
+        if len(recs) >= 1:
+            fails.append(dict(where, what="a Strict reader under a public/masked scheme yielded a record for a line with a non-null germline field",
+                              kind="strict-accepts", exposed=[list(x) for x in exposures(recs[0], ann)]))
+    for n, rec in enumerate(recs):
+        ex = exposures(rec, ann)
+        if ex and mode != "Strict":
+            fails.append(dict(where, what="a record read under a public/masked scheme exposes a non-null germline value via %s" % sorted({v for _c, v, _w in ex}),
+                              kind="exposed", record=n, exposed=[list(x) for x in ex]))
+        account += "; record %d exposes %s" % (n, [list(x) for x in ex] or "nothing")
+    return {"failures": fails, "account": account, "yielded": len(recs)}
+
+
+def reader_model_req(ann, mode, config, line):
+    header, given = reader_config(ann, config)
+    lines = header + ["\t".join(impl.scheme_by_annotation(ann).column_names()), line]
+    r = {"op": "reader.run", "lines": lines, "mode": mode, "floats": float_table([p for l in lines for p in l.split("\t")])}
+    if given:
+        r["given"] = given
+    return r
+
+
+def compare_reader_model(ctx, reqs):
+    mo = ctx.driver.run(reqs)
+    dontcare, dis = 0, []
+    for r, m in zip(reqs, mo):
+        if has_unmodelled(m):
+            continue
+        i = impl.run(r)
+        if m != i:
+            fields = [f for l in r["lines"] for f in l.split("\t")]
+            if any(colcases.dontcare_numeric(p) or colcases.dontcare_uuid(p) for f in fields for p in [f] + f.split(";")):
+                dontcare += 1
+            else:
+                dis.append({"op": "reader.run", "mode": r["mode"], "given": r.get("given"), "header": [l for l in r["lines"] if l.startswith("#")],
+                            "differs": [k for k in sorted(set(m) | set(i)) if m.get(k) != i.get(k)], "line": r["lines"][-1]})
+    return dontcare, dis
+
+
+def reader_cases(ctx, out):
+    import shutil
+    import tempfile
+    rng = ctx.rng("reader-configs")
+    tmp = tempfile.mkdtemp(prefix="verif_c05_")
+    reqs = []
+    try:
+        for ann, cols in sorted(masked_layouts().items()):
+            names = impl.scheme_by_annotation(ann).column_names()
+            for config in READER_CONFIGS:
+                for mode in MODES:
+                    # the columns and the texts are covered one by one on the parse path; here it is the choice of the scheme
+                    for col in rng.sample(cols, ctx.scale(2, len(cols))):
+                        text = rng.choice(["ACGT", "17", "-", "A", "0", "T", str(rng.randrange(2, 10**6))])
+                        fields = masked_clean_fields(ann, colcases.valid_fields(ann, rng))
+                        fields[names.index(col)] = text
+                        line = "\t".join(fields)
+                        route = "list" if rng.random() < 0.5 else rng.choice(impl.READER_ROUTES)
+                        out.evaluations += 1
+                        e = eval_reader(ann, col, text, mode, config, route, line, tmp)
+                        out.failures += e["failures"]
+                        out.distribution["reader:%s:%s" % (config, "strict-rejected" if mode == "Strict" else "nonstrict-hidden")] += 1
+                        out.distribution["reader-route:" + route] += 1
+                        out.nontrivial.add((ann, col, text, config, mode, route))
+                        if route == "list" and rng.random() < ctx.scale(0.5, 1.0):
+                            reqs.append(reader_model_req(ann, mode, config, line))
+                        if len(out.samples) < 5 and config != "header-only":
+                            out.sample({"scheme": ann, "column": col, "text": text, "reader configuration": config, "mode": mode, "route": route})
+    finally:
+        shutil.rmtree(tmp, ignore_errors=True)
+    dontcare, dis = compare_reader_model(ctx, reqs)
+    out.dontcare += dontcare
+    out.disagreements += dis
+
+
+# ------------------------------------------------------------------ Strict writers: histories and line framing
+# "No file produced by a Strict writer under such a scheme contains a non-null germline field, however the records offered to it
+# were built": live record objects (parsed / API-built / validated) into which germline information gets (a) as a value of a
+# masked column - assigned, or carried by a replacement column of the protected / generic class - or (b) as text that breaks the
+# line framing - a TAB / CR / LF inside a text value or inside an ELEMENT of a list-valued column that precedes a germline
+# column, so that the following fields shift into germline positions; before the first offer, after an accepted offer and
+# re-offered, or after the offer only; direct and sorting writers opened by every route.
+# Oracle: an offer of a record that holds a non-null value in a masked column (looked up by name or at the column's position)
+# is refused with the format exception; no record line of the produced file has anything but "" at a germline position.
+HISTORY_PATTERNS = ["mutate-then-offer"] * 4 + ["offer-mutate-reoffer"] * 3 + ["offer-mutate"] * 2 + ["refuse-repair-reoffer"]
+HISTORY_CHANNELS = ["handle", "handle", "handle", "ctor", "plain", "gz"]
+
+
+def clean_record(ann, rng):
+    """(column specs, line) of a conforming record with every masked column null, or None when the implementation refuses it."""
+    from maflib.record import MafRecord
+    from maflib.validation import ValidationStringency as VS
+    from ..common import enc_val
+    sch = impl.scheme_by_annotation(ann)
+    line = "\t".join(masked_clean_fields(ann, colcases.valid_fields(ann, rng)))
+    try:
+        rec = MafRecord.from_line(line, scheme=sch, validation_stringency=VS.Strict)
+    except Exception:  # noqa
+        return None
+    cols = [{"scheme": ann, "col": n, "key": n, "value": enc_val(rec[n].value), "index": k} for k, n in enumerate(sch.column_names())]
+    return cols, line
+
+
+def germline_payload(rng, ann, cols, rid):
+    """The ops that put germline information into the live record `rid` -> (ops, family, ops that take it out again or None)."""
+    names = [c["key"] for c in cols]
+    pos = sorted(names.index(c) for c in masked_layouts()[ann])
+    fam = rng.choice(["separator"] * 5 + ["value"] * 3 + ["replace-protected", "replace-generic", "rekey"])
+    if fam == "separator":
+        cand = [j for j in range(pos[-1]) if j not in pos and cols[j]["value"].get("t") in ("list", "str", "none")]
+        lists = [j for j in cand if cols[j]["value"].get("t") == "list"]
+        p = rng.choice(lists if (lists and rng.random() < 0.6) else cand)
+        m = rng.choice([q - p for q in pos if q > p] + [rng.randrange(1, pos[-1] - p + 1)])
+        sep = rng.choice(["\t"] * 6 + ["\n", "\r", "\r\n"])
+        inj = {"t": "str", "v": sep.join([rng.choice(["G", "x", "7", "byFrequency"])] * (m + 1))}
+        cur = cols[p]["value"]
+        if cur.get("t") == "list":
+            f = rng.choice(["list.append", "list.insert", "list.extend", "value-list", "value-tuple"] + (["list.setitem"] if cur["v"] else []))
+            if f == "list.extend":
+                op = {"field": f, "to": {"t": "list", "v": [inj]}}
+            elif f == "value-list":
+                op = {"field": "value", "to": {"t": "list", "v": list(cur["v"]) + [inj]}}
+            elif f == "value-tuple":
+                op = {"field": "value", "to": {"t": "tuple", "v": [inj]}}
+            else:
+                op = {"field": f, "to": inj, "at": rng.randrange(len(cur["v"])) if (f == "list.setitem") else 0}
+            fam = "separator-in-list-element"
+        else:
+            op = {"field": "value", "to": inj}
+            fam = "separator-in-text"
+        return [dict({"k": "mut", "id": rid, "i": p}, **op)], fam, [{"k": "mut", "id": rid, "i": p, "field": "value", "to": cur}]
+    col = rng.choice(masked_layouts()[ann])
+    k = names.index(col)
+    count = col.startswith("n_")
+    typed = {"t": "int", "v": str(rng.choice([0, 17, 31]))} if count else {"t": "str", "v": rng.choice(["ACGT", "A", "-", "T"])}
+    back = [{"k": "mut", "id": rid, "i": k, "field": "value", "to": {"t": "none"}}]
+    if fam == "value":
+        v = rng.choice([typed, typed, {"t": "str", "v": "17"}, {"t": "int", "v": "0"}, {"t": "float", "v": "1.5"}, {"t": "bool", "v": True},
+                        {"t": "list", "v": [{"t": "str", "v": "A"}]}, {"t": "str", "v": " "}])
+        return [{"k": "mut", "id": rid, "i": k, "field": "value", "to": v}], fam, back
+    if fam == "replace-protected" and PROTECTED_OF.get(ann):
+        return [{"k": "replace", "id": rid, "col": {"scheme": PROTECTED_OF[ann], "col": col, "key": col, "value": typed, "index": rng.choice([k, None])}}], fam, None
+    if fam == "replace-generic" or fam == "replace-protected":
+        return [{"k": "replace", "id": rid, "col": {"cls": "MafColumnRecord", "key": col, "value": {"t": "str", "v": typed["v"]}, "index": rng.choice([k, None])}}], "replace-generic", None
+    # rekey: another column object of the record, holding a value, is given the masked column's name and position
+    donors = [j for j, c in enumerate(cols) if j not in pos and c["value"].get("t") == ("int" if count else "str")]
+    j = rng.choice(donors) if donors else (k + 1) % len(cols)
+    return [{"k": "mut", "id": rid, "i": j, "field": "key", "to": col}, {"k": "mut", "id": rid, "i": j, "field": "index", "to": k}], "rekey", None
+
+
+def gen_germline_history(rng, ann, pool):
+    """One Strict writer session under the masked layout `ann` over live record objects -> the writer.history request
+    (it is also the replayable input), or None when no conforming record could be made.  `pool`: the conforming records made so far."""
+    if len(pool) < 4:
+        pool.append(clean_record(ann, rng))
+    a, b = rng.choice(pool), rng.choice(pool)
+    if a is None or b is None:
+        return None
+    sort = rng.random() < 0.5
+    how = rng.choice(["parse", "api", "api-validated"])
+    new0 = {"k": "new", "id": 0, "how": "parse", "cols": a[0], "line": a[1], "scheme": ann, "mode": "Strict"}
+    new1 = {"k": "new", "id": 1, "how": "parse" if how == "parse" else "api", "cols": b[0]}
+    if how == "parse":
+        new1.update({"line": b[1], "scheme": ann, "mode": "Strict"})
+    elif how == "api-validated":
+        new1["validate"] = ann
+    payload, fam, back = germline_payload(rng, ann, b[0], 1)
+    if how == "api" and fam.startswith("separator") and payload[0]["field"] == "value" and rng.random() < 0.4:
+        # the value is there from construction on
+        new1["cols"] = [dict(c, value=payload[0]["to"]) if j == payload[0]["i"] else c for j, c in enumerate(b[0])]
+        payload, fam = [], fam + ":constructed"
+    pat = rng.choice(HISTORY_PATTERNS)
+    if pat == "refuse-repair-reoffer" and back is None:
+        pat = "mutate-then-offer"
+    wr = lambda rid: {"k": "write", "id": rid, "call": rng.choice(["iadd", "iadd", "write"])}  # noqa: E731
+    seq = [new1]
+    if pat == "mutate-then-offer":
+        if rng.random() < 0.4:
+            seq.append({"k": "validate", "id": 1, "scheme": ann})
+        seq += payload + [wr(1)]
+    elif pat == "offer-mutate-reoffer":
+        seq += [wr(1)] + payload + [wr(1)]
+    elif pat == "offer-mutate":
+        seq += [wr(1)] + payload
+    else:
+        seq += payload + [wr(1)] + back + [wr(1)]
+    first = [new0, wr(0)]
+    if fam == "rekey" or rng.random() < 0.6:
+        ops = first + seq             # the conforming record goes first
+    else:
+        ops = []
+        while first or seq:           # interleaved
+            q = rng.choice([q for q in (first, seq) if q])
+            ops.append(q.pop(0))
+    ops.append({"k": "close"})
+    return {"op": "writer.history", "ann": ann, "header_lines": ["#version gdc-1.0.0", "#annotation.spec " + ann] + (["#sort.order Coordinate"] if sort else []),
+            "mode": "Strict", "assume_sorted": not sort, "channel": rng.choice(HISTORY_CHANNELS), "ops": ops,
+            "watch": list(masked_layouts()[ann]), "watch_scheme": ann, "family": fam, "pattern": "%s:%s" % (how, pat)}
+
+
+def file_record_lines(text):
+    lines = text.split("\n")
+    if lines and lines[-1] == "":
+        lines.pop()
+    k = 0
+    while k < len(lines) and lines[k].startswith("#"):
+        k += 1
+    return lines[k + 1:]
+
+
+def eval_germline_history(req):
+    """Run one history on the implementation and apply the oracle (shared by run and replay_case)
+    -> (implementation's answer, failures, [(step, carried germline values, refused)] for the offers)"""
+    i = impl.run(req)
+    ann = req["ann"]
+    names = impl.scheme_by_annotation(ann).column_names()
+    base = {"scheme": ann, "family": req.get("family"), "pattern": req.get("pattern"), "sorting": not req["assume_sorted"], "channel": req["channel"], "history": req}
+    fails, offers = [], []
+    if "init_exc" in i:
+        return i, [dict(base, what="Strict writer could not be opened for a public/masked layout", kind="init", got=i["init_exc"])], offers
+    for k, (o, st) in enumerate(zip(req["ops"], i["steps"])):
+        if o["k"] != "write":
+            continue
+        carried = sorted({(c, json.dumps(v, sort_keys=True)) for c, vals in (st.get("snap") or {}).get("watch", {}).items() for v in vals if v != {"t": "none"}})
+        refused = st["exc"] is not None and st["exc"].startswith("MafFormatException")
+        offers.append((k, carried, refused, st["exc"]))
+        if carried and not refused:
+            fails.append(dict(base, step=k, what="a record holding a non-null value in a masked column was %s by the Strict writer" % (
+                "not refused" if st["exc"] is None else "refused with %s, not the format exception" % st["exc"]),
+                kind="not-refused", carried=[[c, json.loads(v)] for c, v in carried]))
+    text = i["steps"][-1]["out"] if i["steps"] else i["init_out"]
+    leaks = []
+    for n, ln in enumerate(file_record_lines(text)):
+        fs = ln.split("\t")
+        for c in masked_layouts()[ann]:
+            p = names.index(c)
+            if p < len(fs) and fs[p] != "":
+                leaks.append([n, c, fs[p][:40]])
+    if leaks:
+        fails.append(dict(base, what="a file produced by a Strict writer under a public/masked scheme holds a non-null germline field", kind="leak",
+                          leaks=leaks[:6], got=leaks[0][2]))
+    return i, fails, offers
+
+
+def history_cases(ctx, out):
+    rng = ctx.rng("writer-histories")
+    reqs = []
+    for ann in sorted(masked_layouts()):
+        pool = []
+        for _ in range(ctx.scale(20, 200)):
+            r = gen_germline_history(rng, ann, pool)
+            if r is not None:
+                reqs.append(r)
+    mreqs = [impl.history_model_request(r) for r in reqs]
+    mo = iter(ctx.driver.run([m for m in mreqs if m is not None]))
+    for r, mr in zip(reqs, mreqs):
+        out.evaluations += 1
+        i, fails, offers = eval_germline_history(r)
+        out.failures += fails
+        if mr is None:
+            out.unmodelled += 1
+        else:
+            m = next(mo)
+            if has_unmodelled(m):
+                out.unmodelled += 1
+            else:
+                d = impl.history_model_differs(r, m, i)
+                if d:
+                    out.disagreements.append(dict(d, scheme=r["ann"], family=r["family"], pattern=r["pattern"]))
+        out.distribution["history:" + r["family"]] += 1
+        out.distribution["history-pattern:" + r["pattern"].split(":")[1]] += 1
+        out.distribution["history-channel:%s:%s" % (r["channel"], "direct" if r["assume_sorted"] else "sorting")] += 1
+        for _k, carried, refused, _e in offers:
+            out.distribution["history-offer:%s:%s" % ("germline-value" if carried else "no-germline-value", "refused" if refused else "accepted")] += 1
+        out.nontrivial.add(json.dumps([r["ann"], r["family"], r["pattern"], r["channel"], r["assume_sorted"],
+                                       [o for o in r["ops"] if o["k"] in ("mut", "replace")]], sort_keys=True))
+        if len(out.samples) < 8:
+            out.sample({"history": r["pattern"], "germline information via": r["family"], "scheme": r["ann"], "sorting": not r["assume_sorted"],
+                        "channel": r["channel"], "excs": [s["exc"] for s in i.get("steps", [])]})
+
+
 def run(ctx):
     out = Outcome()
     out.rule = ("4 public/masked layouts (recognised from the definitions) x 6 masked columns x non-null texts (valid for the protected type or not) "
-                "x 3 parse modes; Strict writer (direct and sorting) offered mutated / protected-class / generic columns; every case is non-trivial")
+                "x 3 parse modes; Strict writer (direct and sorting) offered mutated / protected-class / generic columns; every case is non-trivial.  "
+                "Readers: a file with a non-null germline field read under a masked layout selected by the header only / by an explicit scheme equal to the header's, "
+                "over a header naming the un-masked sibling, another layout, an unknown annotation, another version, or no header at all, x 3 modes, opened as lines / "
+                "iterator / handle / path / gzip path.  Writer histories: live record objects (parsed / API-built / validated) that receive germline information as a value, "
+                "a replacement column, a re-keyed column, or as TAB/CR/LF inside a text value or a list ELEMENT ahead of a germline column, before the offer, after an accepted "
+                "offer and re-offered, or after the offer only; direct and sorting writers by from_fd / constructor / from_path / gzip")
     parse_cases(ctx, out)
     writer_cases(ctx, out)
+    reader_cases(ctx, out)
+    history_cases(ctx, out)
     return out
 
 
@@ -283,8 +672,12 @@ def replay_case(ctx, failure):
         print("replay C05 layout: column names of %s; protected-only VCF columns present: %s"
               % (ann, fails[0]["columns"] if fails else "none"))
         return fails
+    if isinstance(f.get("history"), dict):
+        return replay_history(ctx, f)
     if not all(k in f for k in ("scheme", "column", "text")):
         return None
+    if "config" in f:
+        return replay_reader(ctx, f)
     ann, col, text = f["scheme"], f["column"], f["text"]
     sch = impl.scheme_by_annotation(ann)
     if sch is None or col not in sch.column_names() or ann not in masked_layouts():
@@ -320,3 +713,84 @@ def replay_case(ctx, failure):
         return e["failures"]
     return None
 
+
+
+def replay_reader(ctx, f):
+    if not all(k in f for k in ("mode", "config", "route", "line")) or f["config"] not in READER_CONFIGS:
+        return None
+    ann, col, text = f["scheme"], f["column"], f["text"]
+    if ann not in masked_layouts() or f["route"] not in impl.READER_ROUTES:
+        return None
+    header, given = reader_config(ann, f["config"])
+    print("replay C05 reader: a file with header %s, the column names of %s and one record line with %r in the masked column %s,"
+          % (header, ann, text, col))
+    print("  read by MafReader (route %r, %s, scheme=%s) - the scheme in force is %s (%s)"
+          % (f["route"], f["mode"], given or "None", ann, "given by the caller: it overrides the header's" if given else "named by the header"))
+    print("  line: %s" % _short(f["line"]))
+    e = eval_reader(ann, col, text, f["mode"], f["config"], f["route"], f["line"])
+    print("  implementation: %s" % e["account"])
+    try:
+        r = reader_model_req(ann, f["mode"], f["config"], f["line"])
+        m = ctx.driver.run([r])[0]
+        i = impl.run(r)
+        print("  model (lines route): %s" % ("outside the model" if has_unmodelled(m) else "agrees with the implementation" if m == i else
+              "differs in %s; model: init_exc=%s iter_exc=%s records=%s" % ([k for k in sorted(set(m) | set(i)) if m.get(k) != i.get(k)], m.get("init_exc"), m.get("iter_exc"),
+                                                                            _short([x.get("str") for x in m.get("records", [])], 160))))
+    except Exception as x:  # noqa
+        print("  model: not available (%s)" % str(x)[:200])
+    print("  oracle: %d failure(s)%s" % (len(e["failures"]), "".join("\n    - " + x["what"] for x in e["failures"])))
+    fails = e["failures"]
+    fails.sort(key=lambda g: g.get("kind") != f.get("kind"))
+    return fails
+
+
+def replay_history(ctx, f):
+    req = f["history"]
+    if any(k not in req for k in ("ann", "header_lines", "assume_sorted", "channel", "ops")) or req["ann"] not in masked_layouts():
+        return None
+    names = impl.scheme_by_annotation(req["ann"]).column_names()
+    print("replay C05 writer history: Strict %s writer for %s opened by %s; germline information via %s (%s); live record objects:" % (
+        "direct" if req["assume_sorted"] else "sorting", req["ann"],
+        {"handle": "MafWriter.from_fd", "ctor": "MafWriter(handle, header)", "plain": "MafWriter.from_path", "gz": "MafWriter.from_path(.gz)"}.get(req["channel"], req["channel"]),
+        req.get("family"), req.get("pattern")))
+    i, fails, offers = eval_germline_history(req)
+    carried = {k: (c, r, e) for k, c, r, e in offers}
+    steps = i.get("steps", [])
+    for k, o in enumerate(req["ops"]):
+        st = steps[k] if k < len(steps) else {"exc": "?"}
+        if o["k"] == "new":
+            d = "record %d: %s" % (o["id"], ("MafRecord.from_line(<%d fields>, %s)" % (len(o["line"].split("\t")), o.get("mode", "Strict"))) if o["how"] == "parse" else
+                                   "%d columns added through the API%s" % (len(o["cols"]), ", then record.validate(scheme)" if o.get("validate") else ""))
+        elif o["k"] == "mut":
+            d = "record %d: column object %d (%s, position %d) %s %s" % (o["id"], o["i"], names[o["i"]] if o["i"] < len(names) else "?", o["i"], o["field"],
+                                                                       _short({x: o[x] for x in ("to", "at") if x in o}, 200))
+        elif o["k"] == "replace":
+            d = "record %d: record[%r] = %s" % (o["id"], o["col"]["key"], _short(o["col"], 200))
+        elif o["k"] == "validate":
+            d = "record %d: record.validate(scheme=%s)" % (o["id"], o["scheme"])
+        elif o["k"] == "write":
+            c = carried.get(k, ([], False, None))
+            d = "record %d: offered (%s), holding %s in the masked columns -> %s" % (
+                o["id"], "writer.write(record)" if o.get("call") == "write" else "writer += record",
+                [[x, json.loads(v)] for x, v in c[0]] or "only null values", "raised " + st["exc"] if st["exc"] else "accepted")
+        else:
+            d = "%s%s" % (o["k"], " -> raised " + st["exc"] if st["exc"] else "")
+        print("    step %d: %s" % (k, d))
+    text = steps[-1]["out"] if steps else ""
+    recs = file_record_lines(text)
+    print("  produced file: %d record line(s); germline fields: %s" % (len(recs), [[ln.split("\t")[names.index(c)] if names.index(c) < len(ln.split("\t")) else None
+                                                                                   for c in masked_layouts()[req["ann"]]] for ln in recs][:4]))
+    try:
+        mr = impl.history_model_request(req)
+        if mr is None:
+            print("  model: no op keeps record objects across record[name] = ...; implementation only")
+        else:
+            m = ctx.driver.run([mr])[0]
+            d = None if has_unmodelled(m) else impl.history_model_differs(req, m, i)
+            print("  model (every offer as a fresh record in the state of that moment): %s" % (
+                "outside the model's domain" if has_unmodelled(m) else "the same on every offer and on close" if d is None else "differs at step %s: %s" % (d["step"], _short(d["model"], 200))))
+    except Exception as x:  # noqa
+        print("  model: not available (%s)" % str(x)[:200])
+    print("  oracle: %d failure(s)%s" % (len(fails), "".join("\n    - " + x["what"] for x in fails)))
+    fails.sort(key=lambda g: not (g.get("kind") == f.get("kind") and g.get("step") == f.get("step")))
+    return fails
